@@ -22,6 +22,8 @@ Decided (structural preconditions of equality; the lane arithmetic itself is dec
   block-eq   both ChaCha engines (SSE2, portable): init for every key / nonce length, rounds for 8/12/20, add_back, output,
              HChaCha words, counters equal the same specification graphs
   block-run  the scalar tails hand every remaining block to the next implementation down (shared with C02)
+  shape-eval SIMD block-run drivers with opaque schedule / compression leaves: every block of runs of 0..21 (AVX) / 0..13
+             (SSE4.1) blocks is consumed exactly once, in order, by the 8-way, 4-way and scalar leaves
 Not decided: block counts beyond the compared runs (the batch / tail loop structure is decided by stride / block-run)."""
 import re
 
